@@ -60,7 +60,7 @@ pub fn verr(e: &VErr) -> Value {
         VErr::Overflow { .. } => json!({"k": "err", "e": "Overflow"}),
         VErr::TooBig { .. } => json!({"k": "err", "e": "TooBig"}),
         VErr::Misaligned { .. } => json!({"k": "err", "e": "Misaligned"}),
-        VErr::IOError(io) => json!({"k": "err", "e": "IOError", "kind": format!("{:?}", io.kind())}),
+        VErr::IOError(io) => json!({"k": "err", "e": "IOError", "io": format!("{:?}", io.kind())}),
         VErr::PartialBuffer { expected, completed } => {
             json!({"k": "err", "e": "PartialBuffer", "exp": expected, "done": completed})
         }
